@@ -61,15 +61,27 @@ def World.encCtr (w : World) (r : Bool) : UInt32 := if r then w.rdr.encCtr else 
 def World.dirLog (w : World) (r : Bool) : List (Bool × UInt32 × Bytes) :=
   w.log.filter (fun e => e.1 == r)
 
-theorem handleRequest_encCtr (d : Device) (m : Msg) : (d.handleRequest m).1.encCtr = d.encCtr := by
+theorem finalize_encCtr (d : Device) :
+    d.finalizeIfComplete.encCtr = d.encCtr ∨ d.finalizeIfComplete.encCtr = bump d.encCtr := by
+  unfold Device.finalizeIfComplete
+  split
+  · right; rfl
+  · left; rfl
+
+theorem handleRequest_encCtr (d : Device) (m : Msg) :
+    (d.handleRequest m).1.encCtr = d.encCtr ∨ (d.handleRequest m).1.encCtr = bump d.encCtr := by
   cases m with
-  | garbage => rfl
-  | noData => rfl
+  | garbage => left; rfl
+  | noData => left; rfl
   | ct fr s n p t =>
     simp only [Device.handleRequest]
     split
-    · cases p <;> rfl
-    · rfl
+    · cases p
+      · left; rfl
+      · exact finalize_encCtr _
+      · exact finalize_encCtr _
+      · exact finalize_encCtr _
+    · left; rfl
 
 theorem handleResponse_encCtr (r : Reader) (m : Msg) : (r.handleResponse m).1.encCtr = r.encCtr := by
   cases m with
@@ -82,12 +94,15 @@ theorem handleResponse_encCtr (r : Reader) (m : Msg) : (r.handleResponse m).1.en
 theorem retrieve_encCtr (d : Device) : (d.retrieve).1.encCtr = d.encCtr := by
   unfold Device.retrieve; split <;> rfl
 
+theorem prepare_encCtr (d : Device) (docs : List Nat) :
+    (d.prepare docs).encCtr = d.encCtr ∨ (d.prepare docs).encCtr = bump d.encCtr :=
+  finalize_encCtr _
+
 theorem submit_encCtr (d : Device) (sig : Nat) :
     (d.submit sig).encCtr = d.encCtr ∨ (d.submit sig).encCtr = bump d.encCtr := by
   unfold Device.submit
   split
-  · split
-    split <;> simp
+  · exact finalize_encCtr _
   · left; rfl
 
 /-- The invariant behind C07: as long as fewer than 2^32 messages were encrypted in a direction,
@@ -145,6 +160,20 @@ theorem LogOk_of_enc (w w' : World) (r : Bool)
       rw [this]; exact ho
     rw [e1, e2]; exact h r'
 
+theorem LogOk_withDev (w : World) (d : Device)
+    (h : d.encCtr = w.dev.encCtr ∨ d.encCtr = bump w.dev.encCtr) (hl : LogOk w) : LogOk (w.withDev d) := by
+  unfold World.withDev
+  split
+  · rename_i heq
+    exact LogOk_of_same w _ rfl rfl (by simpa using heq) hl
+  · rename_i hne
+    rcases h with hs | hs
+    · exact absurd (by simp [hs]) hne
+    · apply LogOk_of_enc w _ false _ _ _ hl
+      · simp [World.encCtr, hs]
+      · simp [World.encCtr, hs]
+      · simp [World.encCtr]
+
 theorem LogOk_step (w : World) (op : Op) (h : LogOk w) : LogOk (w.step op) := by
   cases op with
   | newRequest =>
@@ -152,22 +181,10 @@ theorem LogOk_step (w : World) (op : Op) (h : LogOk w) : LogOk (w.step op) := by
     · simp [World.step, Reader.newRequest, World.encCtr]
     · simp [World.step, Reader.newRequest, World.encCtr]
     · simp [World.step, Reader.newRequest, World.encCtr]
-  | handleRequest m =>
-    exact LogOk_of_same w _ rfl rfl (handleRequest_encCtr _ _) h
-  | prepare docs => exact LogOk_of_same w _ rfl rfl rfl h
+  | handleRequest m => exact LogOk_withDev w _ (handleRequest_encCtr _ _) h
+  | prepare docs => exact LogOk_withDev w _ (prepare_encCtr _ _) h
   | getNext => exact h
-  | submit sig =>
-    simp only [World.step]
-    split
-    · rename_i heq
-      exact LogOk_of_same w _ rfl rfl (by simpa using heq) h
-    · rename_i hne
-      rcases submit_encCtr w.dev sig with hs | hs
-      · exact absurd (by simp [hs]) hne
-      · apply LogOk_of_enc w _ false _ _ _ h
-        · simp [World.encCtr, hs]
-        · simp [World.encCtr, hs]
-        · simp [World.encCtr]
+  | submit sig => exact LogOk_withDev w _ (submit_encCtr _ _) h
   | responseReady => exact h
   | retrieve => exact LogOk_of_same w _ rfl rfl (retrieve_encCtr _) h
   | handleResponse m =>
